@@ -64,6 +64,7 @@ class Hooks:
         self.snap = {}  # (market_id) -> {id(order): (frags, liability)} at the end of the previous update
         self.log = []  # per update: (market_id, upd, {id(order): state})
         self.status_seq = []
+        self.afs = []  # per logged update: the runners' adjustment factors as published by that book
 
     def tick_end(self, w, market, mb):
         st = {}
@@ -82,12 +83,14 @@ class Hooks:
                 voided=o.simulated.size_voided,
                 profit=None,
             )
+        self.afs.append({r.selection_id: r.adjustment_factor for r in mb.runners})
         self.log.append((market.market_id, sorted(rem), st, mb.inplay))
 
     def closed_end(self, w, market, mb):
         st = {}
         for o in market.blotter:
             st[id(o)] = dict(sel=o.selection_id, profit=o.profit, matched=o.size_matched, complete=o.complete, status=o.status.name, kind=o.order_type.ORDER_TYPE.name, side=o.side, remaining=o.size_remaining)
+        self.afs.append({})
         self.log.append((market.market_id, "closed", st, None))
 
 
@@ -116,6 +119,8 @@ def build(a_state, b_set, factor, timing, mtype, second, two_markets):
         hist[-1] = [last[0], ["RM", 1, factor], last[2]]
         hist += [L.tick(dt), L.tick(dt, ["MD"]), L.tick(dt)]
     if second:
+        # after the first withdrawal the exchange re-bases the factors of the runners that are left
+        hist.append(L.tick(dt, ["AF", {2: 45.0, 3: 55.0}]))
         hist.append(L.tick(dt, ["RM", 3, second]))
         hist.append(L.tick(dt))
     if timing == "before-ip":
@@ -128,7 +133,38 @@ def build(a_state, b_set, factor, timing, mtype, second, two_markets):
     return hist
 
 
+def _placed_after(args):
+    """the non-runner is declared while the market holds no order at all; the bets are struck afterwards, at
+    prices that already reflect the withdrawal: they must be exactly what they are in the same run without the
+    removal (differential oracle) - nothing is reduced or scaled late"""
+    b_set, factor, mtype, gap = args
+    case = dict(placed_after=list(args))
+    out = []
+    counts = {"clause:C09.c": 0, "placed_after_runs": 1, "placed_after_matched": 0}
+    res = []
+    for ev in (["RM", 1, factor], ["Q"]):
+        hist = [L.tick(200, ev)] + [L.tick(200)] * gap + [L.tick(200, "Q", [["@", 1, a] for a in B_SETS[b_set]]), L.tick(200), L.tick(200, "T3"), L.tick(200), L.tick(200, ["CL", {2: "WINNER", 3: "LOSER"}])]
+        ticks, scripts = L.split_history(hist, 2)
+        ew = 4 if mtype == "EACH_WAY" else None
+        nwin = 2 if "PLACE" in mtype else 1
+        skw = dict(max_order_exposure=None, max_selection_exposure=None, max_live_trade_count=5)
+        L._install_created_tracking()
+        w = simx.SimWorld([(simx.MarketSpec(market_id="1.100000001", market_type=mtype, sels=SELS, book0=BOOK0, ew=ew, nwin=nwin), ticks)], [dict(script=scripts[k], kw=dict(skw), name="S%d" % k) for k in range(2)]).run()
+        if w.run_exception is not None:
+            out.append(core.v("C09.c", ("run", "exception", type(w.run_exception).__name__, "-"), "run raised %r" % (w.run_exception,), case))
+            return dict(violations=out, counts=counts, outcome=None)
+        res.append([(o.selection_id, o.side, o.order_type.ORDER_TYPE.name, [(p, z) for _, p, z in o.simulated.matched], getattr(o.order_type, "liability", None)) for o in getattr(w.strategies[1], "_created", [])])
+    counts["clause:C09.c"] += 1
+    if any(r[3] for r in res[0]):
+        counts["placed_after_matched"] += 1
+    if res[0] != res[1]:
+        out.append(core.v("C09.c", ("-", "applied-count", "late", "first"), "bets struck after the removal (factor %s): %s, without the removal %s" % (factor, res[0], res[1]), case))
+    return dict(violations=out, counts=counts, outcome=core.stable_hash(res[0]))
+
+
 def _one(args):
+    if args[0] == "placed-after":
+        return _placed_after(tuple(args[1:]))
     a_state, b_set, factor, timing, mtype, second, two = args
     hist = build(a_state, b_set, factor, timing, mtype, second, two)
     ticks, scripts = L.split_history(hist, 2)
@@ -170,6 +206,7 @@ def _one(args):
         mid = spec.market_id
         ordinal = "first" if mi == 0 else "second"
         logs = [e for e in h.log if e[0] == mid]
+        afs = [a for e, a in zip(h.log, h.afs) if e[0] == mid]
         prev = None
         removed_seen = []
         applied_at = {}
@@ -203,7 +240,8 @@ def _one(args):
                         if s["kind"] == "MARKET_ON_CLOSE" and s["side"] == "LAY":
                             if mtype == "WIN":
                                 # runner adjustment factor of the order's own runner as published
-                                raf = round(100.0 / len(SELS), 2)
+                                # (the book of the removal update carries it)
+                                raf = afs[n].get(s["sel"])
                                 exp = p["liab"] * (1 - ((f or 0) / (100 - raf))) if f is not None else None
                             elif mtype in ("PLACE", "OTHER_PLACE"):
                                 exp = p["liab"] * (100 - f) * 0.01 if f is not None else None
@@ -287,12 +325,17 @@ def run(tier):
                     jobs.append((a, b, f, "plain", mt, f, None))
                     for two in ("seq", "event", "event-long"):
                         jobs.append((a, b, f, "plain", mt, None, two))
+    for b in ("matched-lay", "matched-back", "passive", "moc-lay", "loc-lay", "moc-lay+matched"):
+        for f in FACTORS:
+            for mt in ("WIN", "PLACE") + (("EACH_WAY",) if thorough else ()):
+                for gap in (0, 2):
+                    jobs.append(("placed-after", b, f, mt, gap))
     for r in core.pmap(_one, jobs):
         rep.add_violations(r["violations"])
         rep.merge_counts(r["counts"])
         if r["outcome"]:
             rep.outcomes.add(r["outcome"])
-    rep.need("voided_orders", "voided_with_matched", "reduced_fragments", "scaled_liabilities", "second_market_removals", "second_removals", "inflight_at_removal")
+    rep.need("placed_after_matched", "voided_orders", "voided_with_matched", "reduced_fragments", "scaled_liabilities", "second_market_removals", "second_removals", "inflight_at_removal")
     rep.states = len(jobs)
     rep.transitions = len(jobs)
     rep.traces = len(jobs)
@@ -311,7 +354,10 @@ def run(tier):
 
 
 def replay(rep):
-    a = rep["case"]["args"]
+    if "placed_after" in rep["case"]:
+        a = ["placed-after"] + list(rep["case"]["placed_after"])
+    else:
+        a = rep["case"]["args"]
     r = _one(tuple(a))
     for d in r["violations"]:
         print(d["key"], d["detail"])
